@@ -27,7 +27,7 @@ ASSUMPTIONS = [
     'order is only demanded between actions that were both pending before either became due',
 ]
 BUDGET = {
-    'quick': {'examples': 500},
+    'quick': {'examples': 3000},
     'thorough': {'examples': 4000, 'shards': 16},
 }
 
@@ -47,6 +47,7 @@ def strategy(tier):
       st.just(['plain']),
       st.tuples(st.just('child'), st.integers(-4, 40)).map(list),
       st.tuples(st.just('cancel'), st.integers(0, 30)).map(list),
+      st.just(['raise']),
   )
   op = st.one_of(
       st.tuples(st.just('schedule'), st.integers(-8, 80), action).map(list),
@@ -122,6 +123,8 @@ def execute(plan):
           do_schedule(now_u() + kind[1], ['plain'])
         elif kind[0] == 'cancel':
           do_cancel(kind[1])
+        elif kind[0] == 'raise':
+          raise RuntimeError('action %d fails' % e.id)     # must not disturb the worker or other actions
 
       try:
         e.cancel = q.Schedule(EPOCH + T_u * unit, action)
